@@ -10,6 +10,7 @@ package route
 //    fails a lookup; every redirect Location is the request's own; a swapper replaces the table.
 
 import (
+	"runtime/debug"
 	"fmt"
 	"net/http"
 	"net/url"
@@ -68,6 +69,19 @@ func c06Access(t *Target, class string, deny bool) string {
 // the documented forms of a redirect target that mention the request
 var c06RedirectHosts = []string{"rd.com", "rd2.com", "rd3.com"}
 
+// c06Guard turns a panic of a request goroutine into a failure record: a lookup that panics is a failed
+// lookup ("the host-pattern cache never fails a lookup"), and net/http would turn it into an aborted request.
+func c06Guard() {
+	if p := recover(); p != nil {
+		cls := fmt.Sprint(p)
+		if len(cls) > 60 {
+			cls = cls[:60]
+		}
+		verifx.Fail(map[string]any{"panic": fmt.Sprint(p)}, map[string]any{"sub": "stress", "clause": "lookup-panic", "panic": cls},
+			"a lookup running concurrently with other lookups panicked: %v\n%s", p, debug.Stack())
+	}
+}
+
 func TestVerifC06Trace(t *testing.T) {
 	tbl, err := newTableFromText(c06Table + c06AccessRoutes)
 	if err != nil {
@@ -93,6 +107,7 @@ func TestVerifC06Trace(t *testing.T) {
 		wg.Add(1)
 		go func(g int) {
 			defer wg.Done()
+			defer c06Guard()
 			<-start
 			for i := 0; i < ops; i++ {
 				switch (i + g) % 4 {
@@ -136,7 +151,7 @@ func TestVerifC06Trace(t *testing.T) {
 	}
 	close(start)
 	wg.Wait()
-	tr.Add(map[string]any{"ev": "Snap", "cursor": atomic.LoadUint64(&rr.total), "cache": c06CacheKeys(gc)})
+	tr.Add(map[string]any{"ev": "Snap", "cursor": vCursorGet(rr), "cache": c06CacheKeys(gc)})
 	path := filepath.Join(os.Getenv("VERIF_TMP"), "c06.trace.ndjson")
 	if err := tr.WriteNDJSON(path); err != nil {
 		t.Fatal(err)
@@ -167,6 +182,7 @@ func TestVerifC06Stress(t *testing.T) {
 		wg.Add(1)
 		go func() {
 			defer wg.Done()
+			defer c06Guard()
 			local := map[string]int{}
 			for atomic.AddInt64(&next, 1) <= int64(total) {
 				tg := wt.Lookup(c06Req("w.com", "/"), "", rrPicker, prefixMatcher, gcw, false)
@@ -237,6 +253,7 @@ func TestVerifC06Stress(t *testing.T) {
 		wg.Add(1)
 		go func(g int) {
 			defer wg.Done()
+			defer c06Guard()
 			for i := 0; i < iters; i++ {
 				h := (i*13 + g*7) % 40
 				tg := GetTable().Lookup(c06Req(fmt.Sprintf("x%d.h%d.com", g, h), "/p"), "", rrPicker, prefixMatcher, gc, false)
@@ -281,6 +298,7 @@ func TestVerifC06Stress(t *testing.T) {
 		wg.Add(1)
 		go func(g int) {
 			defer wg.Done()
+			defer c06Guard()
 			class := classes[g%len(classes)]
 			want := "admitted"
 			if class == "out" {
